@@ -37,9 +37,42 @@ def cases(rng, tier):
     for _ in range(n_p):
         s = C09._rand_pkg_spec(rng)
         yield {"kind": "pkg", "mods": s["mods"], "exts": s["exts"]}
+    for _ in range(max(12, n_p // 5)):
+        yield {"kind": "nonfinite", "seed": rng.randrange(10**6), "size": rng.randint(0, 3)}
 
 
 _cache = [None, None]
+
+
+class NotJson(ValueError):
+    pass
+
+
+def _strict_loads(text):
+    """RFC 8259: the tokens NaN / Infinity / -Infinity (which Python's json module accepts) are not JSON"""
+
+    def bad(tok):
+        raise NotJson(tok)
+
+    return json.loads(text, parse_constant=bad)
+
+
+def _nonfinite_hugr(spec):
+    """a builder-made module carrying non-finite floats where a float may stand: node metadata and float
+    constants (they have no JSON form; whatever the serialiser does, the document must stay JSON)"""
+    import random
+
+    from hugr.std.float import FloatVal
+
+    rng = random.Random(spec["seed"])
+    h = C09.build_module(spec["seed"], spec["size"])
+    vals = [float("inf"), float("-inf"), float("nan")]
+    nodes = list(h)
+    for _ in range(rng.randint(1, 3)):
+        h[rng.choice(nodes)].metadata[rng.choice(["cost", "w", "é"])] = rng.choice([rng.choice(vals), [1.5, rng.choice(vals)], {"k": rng.choice(vals)}])
+    if rng.random() < 0.7:
+        h.add_const(FloatVal(rng.choice(vals)), h.root)
+    return h
 
 
 def _docs(spec):
@@ -51,15 +84,25 @@ def _docs(spec):
     try:
         if spec["kind"] == "pkg":
             pkg = C09.build_package(spec)
-            out.append(("Package", json.loads(pkg._to_serial().model_dump_json()), None))
+            out.append(("Package", _strict_loads(pkg._to_serial().model_dump_json()), None))
             for e in pkg.extensions:
-                out.append(("Extension", json.loads(e.to_json()), None))
+                out.append(("Extension", _strict_loads(e.to_json()), None))
             for m in pkg.modules:
-                out.append(("SerialHugr", json.loads(m.to_json()), m))
+                out.append(("SerialHugr", _strict_loads(m.to_json()), m))
+        elif spec["kind"] == "nonfinite":
+            from hugr.package import Package
+
+            h = _nonfinite_hugr(spec)
+            out.append(("SerialHugr", _strict_loads(h.to_json()), None))
+            pkg = Package([h], [])
+            out.append(("Package", _strict_loads(pkg._to_serial().model_dump_json()), None))
+            out.append(("Package", _strict_loads(pkg.to_str()[pkg.to_str().index("{"):]), None))
         else:
             h = C02.build(spec)
             if h is not None:
-                out.append(("SerialHugr", json.loads(h.to_json()), h))
+                out.append(("SerialHugr", _strict_loads(h.to_json()), h))
+    except NotJson as e:
+        out = [("!", f"not-json:{e}", None)]
     except Exception as e:  # noqa: BLE001
         from hugr.ops import IncompleteOp
 
@@ -175,8 +218,8 @@ def oracle(spec):
     if not ds:
         return fails
     if ds[0][0] == "!":
-        if ds[0][1].startswith("build-failed") and spec["kind"] != "raw":
-            pass
+        if ds[0][1].startswith("not-json:"):
+            fails.append(Failure("to_json", "emitted-text-is-not-a-json-document", f"token {ds[0][1][9:]}"))
         return fails
     defs = _defs()
     for root, doc, h in ds:
@@ -219,6 +262,9 @@ def stats(spec, obs, counters):
     counters[f"kind.{spec['kind']}"] += 1
     ds = _docs(spec)
     for root, doc, _ in ds:
+        if root == "!":
+            counters[f"outcome.{doc[:24]}"] += 1
+            continue
         counters[f"documents.{root}"] += 1
         if root == "SerialHugr":
             counters["hugr.nodes"] += len(doc["nodes"])
@@ -233,4 +279,9 @@ def shrink(spec, pred):
             while len(s[key]) > 0 and pred({**s, key: s[key][:-1]}):
                 s = {**s, key: s[key][:-1]}
         return s
+    if spec["kind"] == "nonfinite":
+        for size in range(spec["size"]):
+            if pred({**spec, "size": size}):
+                return {**spec, "size": size}
+        return spec
     return C02.shrink(spec, pred)
